@@ -1,4 +1,5 @@
 import GixModel.Lemmas.C38Names
+import GixModel.Lemmas.C38Parse
 /-
 C38 — Attribute values agree with git check-attr.  PROPERTY THEOREMS ONLY.
 
@@ -127,13 +128,25 @@ def ParsersAgree (fs : Files) : Prop :=
   (∀ b ∈ fs.globals, parseFileC true b = parseFile b) ∧ (∀ b, fs.info = some b → parseFileC true b = parseFile b)
     ∧ (∀ d b, fs.dirs d = some b → parseFileC true b = parseFile b)
 
-/-- The full statement on bytes (NOT proved: it needs `ParsersAgree` for all files without NUL bytes and
-without malformed quoted patterns; see `resolve_eq_git_bytes_partial` and the level note). -/
+/-- The full statement on bytes. It is FALSE of today's code for malformed quoted patterns (the known
+findings `"abc q=1` / `"\!x" q=1`, replayed by the harness); everything else but NUL bytes and quoted
+macro definitions is covered by `resolve_eq_git_bytes`. -/
 def C38_full : Prop :=
   ∀ (env : Env) (fs : Files) (path : Bytes) (isDir icase : Bool) (sel : List Bytes) (a : Bytes),
     PathOk path → (sel = [] ∨ a ∈ sel) →
     resolve env (fs.parsed parseFile) path isDir icase sel a
       = some (gitValue (gitCollect env (fs.parsed (parseFileC true)) (gitPath path isDir) icase) a)
+
+/-- `C38_full` is false of today's code: the root file `"abc q=1` (an unterminated quote) and the path
+`"abc` — git reads the pattern `"abc` with `q=1`, gitoxide the pattern `abc q=1` without attributes
+(known finding `corpus:unterminated-quote`, replayed against the real code by the harness). -/
+theorem C38_full_false : ¬ C38_full := by
+  intro h
+  have := h ⟨fun p rel _ _ => p.text == rel⟩
+    { globals := [], info := none, dirs := fun d => if d = [] then some [34, 97, 98, 99, 32, 113, 61, 49, 10] else none }
+    [34, 97, 98, 99] false false [] [113] (by decide) (Or.inl rfl)
+  revert this
+  decide
 
 theorem resolve_eq_git_bytes_partial (env : Env) (fs : Files) (path : Bytes) (isDir icase : Bool) (sel : List Bytes)
     (a : Bytes) (hp : PathOk path) (ha : sel = [] ∨ a ∈ sel) (hparse : ParsersAgree fs) :
@@ -160,6 +173,44 @@ example :
                       34, 113, 32, 112, 34, 9, 109, 32, 33, 99, 32, 100, 61, 49, 10]  -- "\"q p\"\tm !c d=1\n"
     parseFileC true f = parseFile f ∧ (parseFile f).length = 2 := by decide +kernel
 
+/-- **parse_line_eq_git**: on every line without NUL and LF whose pattern is unquoted, or quoted in a
+way git's `unquote_c_style` accepts (and not a quoted macro definition), git's `parse_attr_line`
+(strspn / strcspn / strchr pointer walk, `parse_attr` called once per state) and gitoxide's
+`parse_line` + `ansi_c::undo` + `Iter` (`fields`, `splitn(2, '=')`) produce the same line — macro or
+pattern, every assignment with its state — or both drop it (comment, blank, over-long, invalid
+attribute name, negative pattern). -/
+theorem parse_line_eq_git (line : Bytes) (no : Nat) (h : LineOk line) :
+    parseAttrLineC true line no = parseLine line no :=
+  lineOk_parse line no h
+
+/-- the same for whole files -/
+theorem parse_file_eq_git (bytes : Bytes) (h : ∀ l ∈ splitLines (stripBom bytes), LineOk l) :
+    parseFileC true bytes = parseFile bytes :=
+  parseFile_eq_git bytes h
+
+-- non-vacuity: `LineOk` on a line with leading blanks, a value containing `=`, CR at the end; on a quoted
+-- pattern with an octal escape; and NOT on an unterminated quote (the known finding)
+example : LineOk [32, 9, 42, 46, 99, 32, 97, 61, 98, 61, 99, 9, 45, 100, 32, 33, 101, 13] := by decide
+example : LineOk [34, 102, 92, 48, 53, 54, 99, 34, 98, 32, 45, 99] := by decide
+example : ¬ LineOk [34, 97, 98, 99, 32, 113, 61, 49] := by decide
+
+/-- every file in play consists of lines both parsers are proved to read alike -/
+def FilesOk (fs : Files) : Prop :=
+  (∀ b ∈ fs.globals, ∀ l ∈ splitLines (stripBom b), LineOk l)
+    ∧ (∀ b, fs.info = some b → ∀ l ∈ splitLines (stripBom b), LineOk l)
+    ∧ (∀ d b, fs.dirs d = some b → ∀ l ∈ splitLines (stripBom b), LineOk l)
+
+/-- **the property on raw bytes**, for attribute files without NUL bytes whose quoted patterns (if
+any) are well-formed: gitoxide's parser + stack + search reports for every attribute what git's parser
++ attr.c computes. -/
+theorem resolve_eq_git_bytes (env : Env) (fs : Files) (path : Bytes) (isDir icase : Bool) (sel : List Bytes)
+    (a : Bytes) (hp : PathOk path) (ha : sel = [] ∨ a ∈ sel) (hf : FilesOk fs) :
+    resolve env (fs.parsed parseFile) path isDir icase sel a
+      = some (gitValue (gitCollect env (fs.parsed (parseFileC true)) (gitPath path isDir) icase) a) :=
+  resolve_eq_git_bytes_partial env fs path isDir icase sel a hp ha
+    ⟨fun b hb => parse_file_eq_git b (hf.1 b hb), fun b hb => parse_file_eq_git b (hf.2.1 b hb),
+     fun d b hb => parse_file_eq_git b (hf.2.2 d b hb)⟩
+
 /-- **unspecified_vs_unset**: "unspecified because of `!a`" is a decision like "unset because of
 `-a`" — once an attribute has either state, nothing of lower precedence (later lines, shallower
 directories, global files, macro bodies) changes it — while an attribute nobody mentioned is
@@ -181,5 +232,16 @@ theorem unspecified_vs_unset (env : Env) (cx : Ctx) (path : Bytes) (isDir icase 
     · rw [fill_isFilled]; simp
     · unfold Out.get; rw [fill_filled]; simp
     · unfold Out.get; rw [fill_filled]; simp
+
+-- non-vacuity: `* !a` in info/attributes decides `a` (reported unspecified) although the root file sets it;
+-- `* -a` reports unset
+example :
+    let a : Bytes := [97]
+    let pat : Pat := ⟨[42], false, false, false, true, false, some 0⟩
+    let t : St → PTree := fun s =>
+      { globals := [], info := some [⟨Kind.pattern pat, [⟨a, s⟩], 1⟩],
+        dirs := fun d => if d = [] then some [⟨Kind.pattern pat, [⟨a, St.set⟩], 1⟩] else none }
+    resolve ⟨fun _ _ _ _ => true⟩ (t St.unspecified) [120] false false [] a = some St.unspecified
+      ∧ resolve ⟨fun _ _ _ _ => true⟩ (t St.unset) [120] false false [] a = some St.unset := by decide
 
 end GixModel.Props.C38
